@@ -73,7 +73,10 @@ DoCall ==
          lock == fk.on /\ Has(Line, "r2")
          post2 == IF lock THEN ObsOf(Line.st2) ELSE ob2
          run2 == RunCall(ob2, c, Fuel)
-         explained == modelled /\ conf /\ ~run2.hang /\ run2.me.ret.t = Line.r2.t /\ RetEq(run2.me.ret, Line.r2)
+         \* the model predicts what C11 compares (results, book, effective queue order) for the original ...
+         confB == modelled /\ mret.t = r.t /\ RetEq(mret, r) /\ Book(run.sh) = Book(post) /\ LiveOrder(run.sh) = LiveOrder(post)
+         \* ... and for the copy (statistics and id counters are not part of the comparison)
+         explained == confB /\ ~run2.hang /\ run2.me.ret.t = Line.r2.t /\ RetEq(run2.me.ret, Line.r2)
                       /\ Book(run2.sh) = Book(post2) /\ LiveOrder(run2.sh) = LiveOrder(post2)
          v11 == IF lock THEN C11Verdict(fk, r, Line.r2, explained) ELSE {}
          extra == (IF ApiOk(Line.st) THEN {} ELSE {"C01"})
